@@ -44,10 +44,13 @@ def cumulativeFrom (prev : Rat) : List Centroid → List Rat
 /-- `t.cumulative` (length = number of centroids + 1). -/
 def cumulative (cs : List Centroid) : List Rat := cumulativeFrom 0 cs
 
+/-- `math.Max` / `math.Min` on finite values. -/
+def rmax (a b : Rat) : Rat := if a ≤ b then b else a
+def rmin (a b : Rat) : Rat := if a ≤ b then a else b
+
 /-- `weightedAverageSorted`: `x := (x1*w1 + x2*w2)/(w1+w2); return max(x1, min(x, x2))`. -/
 def weightedAverageSorted (x1 w1 x2 w2 : Rat) : Rat :=
-  let x := (x1 * w1 + x2 * w2) / (w1 + w2)
-  Max.max x1 (Min.min x x2)
+  rmax x1 (rmin ((x1 * w1 + x2 * w2) / (w1 + w2)) x2)
 
 /-- `weightedAverage`. -/
 def weightedAverage (x1 w1 x2 w2 : Rat) : Rat :=
